@@ -105,7 +105,17 @@ def run(res, drv, tier, seed):
     for ci in range(n):
         dom, cl, kind = gmgen.gen_structure(r, 400, nmax=5)
         total = r.choice([1, 2, 7, 10, 37.6, 100, 1000, 12345.9, 10 ** 5] + ([10 ** 6] if tier == 'thorough' else []))
-        model = gmgen.build_model(dom, cl, float(total), gmgen.gen_order(r, dom))
+        order = gmgen.gen_order(r, dom)
+        if ci % 4 == 3:
+            # a chain of six attributes built with the integer form of elimination_order (several randomised greedy orders, the cheapest
+            # is used for the tree): the column loop walks model.elimination_order, which must be the order the tree was built with
+            names = r.sample(['a', 'b', 'c', 'd', 'e', 'f', 'g'], 6)
+            dom = [[a, 2] for a in names]
+            cl = [[names[i], names[i + 1]] for i in range(5)]
+            order, total = r.choice([3, 6, 6]), r.choice([1000, 5000, 12345.9])
+            np.random.seed(r.randrange(2 ** 31))
+            res.count('directed: chain with an integer elimination order')
+        model = gmgen.build_model(dom, cl, float(total), order)
         pots = gmgen.gen_potentials(r, model, zero_p=0.2)
         joint = gmgen.brute_joint(dom, pots)
         Z = sum(joint.values())
@@ -113,7 +123,7 @@ def run(res, drv, tier, seed):
             continue
         model.potentials = gmgen.impl_potentials(pots)
         method = 'round' if r.random() < 0.7 else 'sample'
-        rows = None if r.random() < 0.6 else r.choice([1, 5, 50, 999])
+        rows = None if r.random() < 0.6 else r.choice([1, 5, 50, 999, 0])
         if method == 'sample' and r.random() < 0.7:
             rows = r.choice([1000, 5000, 20000])
         npseed = r.randrange(2 ** 31)
@@ -133,7 +143,7 @@ def run(res, drv, tier, seed):
             res.violation('failing-input', f'synthetic_data raises {type(e).__name__}: {str(e)[:120]}', dict(rp, observed=str(e)), key='synth:raises')
             continue
         df = synth.df
-        if method == 'round' and drv and df.shape[0] <= 20000:
+        if method == 'round' and drv and 0 < df.shape[0] <= 20000:
             tq, why = table_request(dom, joint, model, srec, df.shape[0])
             if tq is None:
                 tables.append((canon, None, why, df, attrs))
